@@ -298,7 +298,7 @@ def gen_problem(rng, cfg, zero_resid=None):
         c = z + 0.5 * rng.normal(size=n)
         rad = float(np.linalg.norm(z - c) + rng.uniform(0.3, 1.0))
         proj = [['ball', hx(c), hx(rad)]]
-        if rng.random() < 0.4:
+        if spec.get('lo') is None and rng.random() < 0.6:      # at most two user sets + box: Dykstra is slow in pure Python
             a = rng.normal(size=n)
             proj.append(['halfspace', hx(a), hx(float(a.dot(z)) + rng.uniform(0.3, 1.0) * float(np.linalg.norm(a)))])
         spec['proj'] = proj
@@ -397,10 +397,12 @@ def make_spec(seed, i, j):
     n = spec['n']
     heavy = cfg in ('proj', 'reg')
     params = {'logging.save_diagnostic_info': True, 'logging.save_poisedness': bool(rng.random() < 0.15)}
-    spec['maxfun'] = int(rng.choice([60, 100, 150])) if not heavy else int(rng.choice([15, 25, 40]))
+    spec['maxfun'] = int(rng.choice([60, 100, 150])) if not heavy else int(rng.choice([12, 20, 30]))
     spec['rhoend'] = hx(float(rng.choice([1e-8, 1e-6, 1e-4, 1e-2])))
     if cfg == 'reg':
         params['func_tol.max_iters'] = int(rng.choice([30, 60]))
+    if cfg == 'proj' and rng.random() < 0.5:
+        params['dykstra.max_iters'] = 30
     if rng.random() < 0.3 and not heavy:
         spec['npt'] = n + 1 + int(rng.integers(1, n + 1))
     if sc == 'small_obj' or rng.random() < 0.3:
@@ -477,7 +479,7 @@ def make_spec(seed, i, j):
 
 
 def tasks(seed, tier):
-    ntasks, per = (48, 12) if tier == 'quick' else (320, 36)
+    ntasks, per = (72, 8) if tier == 'quick' else (480, 24)
     return [dict(seed=int(seed), i=i, count=per, tier=tier) for i in range(ntasks)]
 
 
